@@ -31,11 +31,14 @@ claim("C01",
       "no orphan, element order of all 18 conversions = param_names); (ii) symbolic identities decided by a canonical "
       "term algebra over the real ASTs: spherical/cylindrical definitions, rates = total time-derivatives and reverse "
       "formulas, true<->eccentric anomaly pairs mutually inverse (elliptic and hyperbolic), Newton step of M2E against "
-      "the sibling's Kepler equation with loop polarity, mean-motion pair, circular/mean-circular siblings, and the "
-      "defining relations of 19 Infos quantities; (iii) alias closure of Form.alt.",
-      "Not decided: numerical round-trip error, convergence of M2E (start values), _cartesian_to_keplerian, polar-pair "
-      "decoders and keplerian->cartesian (thorough tier rules pending). Positive-atom assumption for sqrt(x²)=x; angles "
-      "modulo 2π; textbook definitions listed in the evidence assumptions.",
+      "the sibling's Kepler equation with loop polarity, mean-motion pair, circular/mean-circular siblings, the polar-pair "
+      "decoders of the circular, mean-circular and equinoctial forms inverting their encoders, keplerian->cartesian "
+      "equal to the textbook position and its time-derivative, cartesian->keplerian inverting it symbolically (norms "
+      "replaced by closed forms each justified by its own obligation), the sign of the anomaly carried by sin(nu) through "
+      "data flow, and the defining relations of 19 Infos quantities; (iii) alias closure of Form.alt.",
+      "Not decided: numerical round-trip error (conditioning), convergence of M2E (start-value branches), behaviour at "
+      "the singular elements (e=0, i=0). Positive-atom assumption for sqrt(x^2)=x; angles modulo 2 pi; textbook "
+      "definitions listed in the evidence assumptions.",
       "table agreement over ast + canonical term algebra (normal forms, symbolic derivation) on straight-line arms",
       "§3 C01")
 
@@ -44,8 +47,11 @@ claim("C16",
       "satisfy Hill's equations and initial values entry by entry for all n, t (108 symbolic obligations discharged by "
       "term-algebra normal forms + derivation); QSW2TNW is the signed permutation (q,s,w)->(s,-q,w) with det +1 and the "
       "TNW arm a similarity transform with it; maneuver sequencing in propagate() (impulse: free flight then dv on the "
-      "velocity once; continuous: thrust to min(date, stop); two-sided applicability window; half-open thrust window).",
-      "Not decided: second-order agreement with Keplerian differences; CWHelper formulas (thorough rule pending). "
+      "velocity once; continuous: thrust to min(date, stop); two-sided applicability window; half-open thrust window); "
+      "every CWHelper maneuver pushed through the matrices read from cw.py realises the distances it announces and "
+      "leaves the chaser where it says (16 symbolic obligations); impulses land on states built in the call and results "
+      "share nothing with the stored initial orbit (ownership analysis).",
+      "Not decided: second-order agreement with Keplerian differences. "
       "Trusted: Hill's equations as written in the checker; the term algebra.",
       "canonical term algebra (ODE + initial value obligations) + ast pattern rules on the sequencing", "§3 C16")
 
@@ -68,7 +74,9 @@ claim("C02",
       "accumulation, negated reverse centre offsets, m @ state + offset in the new orientation); rot1/2/3 are proper "
       "rotations of one sense and expand() builds the -[rate]x R coupling (term algebra); the IAU models read TT/UT1 "
       "clock fields from normalised dates only; EOP fields, series<->model pairing, IERS column layout and unit "
-      "constants; rotation sequences, model wiring and rotation-ness of the constant matrices.",
+      "constants; rotation sequences, model wiring and rotation-ness of the constant matrices; numeric literals and "
+      "value-numbered normal forms of the IAU model functions and token digests of the four IERS coefficient tables "
+      "equal the committed references.",
       "Not decided: IAU series values, sub-arcsecond agreement of the 1980 and 2010 chains, numeric path independence, "
       "sign conventions beyond the frozen sequences. R02.7 sequences are frozen from Vallado/IERS by reading.",
       "graph/table agreement + canonical term algebra (rotations) + site census with reaching definitions", "§3 C02")
@@ -89,7 +97,10 @@ claim("C05",
       "date (index resolved through the form table) and ΔM = n·Δt symbolically; J2's increment has literal zeros "
       "for (a, e, i) and its three rates equal the first-order secular formulas as term-algebra normal forms, with "
       "the polar-orbit and critical-inclination corollaries and no angle atom in any rate (additivity in Δt, hence "
-      "composition and inverse); initial orbit never written; result a fresh cartesian copy.",
+      "composition and inverse); initial orbit never written directly, through an alias or through a numpy view of its "
+      "buffer; result a fresh cartesian copy; the mean motion comes from an Infos object rebuilt at every access (memo "
+      "census); and, because forms.py is an anchor, the C01 clauses on the chain cartesian<->keplerian<->eccentric<->mean "
+      "(R01.2/6/8/11/13) are run as part of this check.",
       "Not decided: agreement with an independent universal-variable two-body solution, periodicity as numbers. "
       "Relies on C01 for the conversions keplerian_mean <-> cartesian and Infos.n.",
       "ast write-set rules + canonical term algebra on the rate expressions", "§3 C05")
@@ -100,7 +111,8 @@ claim("C06",
       "rational arithmetic (euler 1, rk4 4, rkf54/dopri54 5 with embedded 4); the stage loop pairs a[k] with c[k], "
       "forms y_n + h a.ks at t_n + h c, combines with b and estimates the error with b - b*, accepts on error <= tol, "
       "raises on non-convergence, marches by the accepted step; the right-hand side is x'=v, v'=sum mu_b d/|d|^3 plus "
-      "thrust inside burn windows; copy() forwards every constructor parameter.",
+      "thrust inside burn windows; the accepted quantity is a norm (non-negative for backward steps too); copy() forwards "
+      "every constructor parameter.",
       "Not decided: measured order, energy/momentum drift, millimetre independence from the output step (numerical). "
       "R06.2/R06.3 are shape rules on the 25 statements of _make_step/_accel.",
       "exact constant folding of the tableaux (order conditions) + ast pattern rules", "§3 C06")
@@ -124,8 +136,9 @@ claim("C13",
       "(B3) units written = default units assumed, all in units_dict, conversions inverse; (B4) covariance key table "
       "(36 entries + row structure of the OEM KVN block); (B5) QSW<->RSW alias maps inverse at every site; (B6) Cov "
       "receives a Frame or a local tag; (B7) repeated XML elements normalised before iteration; (B8) writers read only "
-      "what every producer provides; (B9) measurement names written = accepted; (N1) optional centre body tested "
-      "before dereference.",
+      "what every producer provides; (B9) measurement names written = accepted; (B10) per-record accumulators of the "
+      "line-oriented readers created where the record starts; (B11) numbered/ordered components agree between both "
+      "encodings and readers; (B12) tokenisers; (N1) optional centre body tested before dereference.",
       "Not decided: precision of written numbers (1 mm / 1 mm/s is a property of the format specs, not checked), XML "
       "schema validity, epoch round trip to the microsecond (dates under one TIME_SYSTEM are decided under C04).",
       "keyword/tag extraction from templates and ET.SubElement calls (finite string sets over literal loops) + "
@@ -138,7 +151,9 @@ claim("C08",
       "pure function of (initial orbit, date): every propagate() result is fresh (abstract interpretation over the "
       "sharing idioms: shallow _data copies, numpy views), no store or in-place mutation reaches the initial orbit or "
       "an argument through an alias (reaching definitions), orbit setters snapshot their source, Ephem drops its "
-      "interpolator when its points change, copy() forwards every constructor parameter.",
+      "interpolator when its points change, copy() forwards every constructor parameter; memo census (every cache in "
+      "the package is tabled with the reason it is safe), no instance state stored on a shared class, listeners "
+      "cleared inside the generator that listens (R10.1 = R08.5).",
       "Not decided: numeric equality of iterated and directly propagated states. Known findings: backward ranges "
       "(D19), short spans in KeplerNum (D20), Sgp4 results sharing one Cov (D21, pinned by the suite).",
       "ownership/freshness abstract interpretation on reaching definitions + sibling comparison + ast pattern rules", "§3 C08")
@@ -182,9 +197,11 @@ claim("C10",
       "bisection keeps the crossing inside, halves, and stops below the 1 us resolution; every override of check() "
       "conjoins the base sign test; the nine-listener table (event classes returned by info(), label direction "
       "expressions, watched quantities, same frame/form for watch and label); visibility() does not mutate the caller's "
-      "list and filters on the station's own event classes.",
-      "Not decided: completeness w.r.t. sampling for discontinuous quantities, sharpness in microseconds, conical-shadow "
-      "geometry of LightListener, agreement with closed-form event times.",
+      "list and filters on the station's own event classes; every named intermediate of the conical-shadow and "
+      "terminator geometry equals its expression (term algebra) with the documented branch structure.",
+      "Not decided: completeness w.r.t. sampling for discontinuous quantities, sharpness in microseconds, agreement of "
+      "the shadow model with an independent one (the code's own cone formulas are frozen, including its use of one "
+      "angle for umbra and penumbra), agreement with closed-form event times.",
       "ast protocol rules (ordering/dominance in generator bodies), override census over the class hierarchy, "
       "reaching-definitions mutation check", "§3 C10")
 
@@ -202,7 +219,7 @@ claim("C17",
       "Clause-level: QSW and TNW triads by construction (27 symbolic obligations on 3-vectors: unit first axis, unit "
       "angular momentum third axis, second = third x first, rows in name order); transposition pairing at the seven "
       "local-axes sites with the state made cartesian in the parent frame first; half-open maneuver windows "
-      "(date, date+step] and [start, stop); orbit2frame wiring; ContinuousMan dv = accel x duration; dkep2dv identities "
+      "(date, date+step] and [start, stop), tested by the integrator with the step it actually took; orbit2frame wiring; ContinuousMan dv = accel x duration; dkep2dv identities "
       "(first-order vis-viva, plane-rotation angle, law of cosines, dv_w^2 = dv^2 - dv_t^2).",
       "Not decided: first-order realisation of Keplerian increments as numbers; 'no later than one step' timing as executed "
       "(the window tiling makes it once-only given C06's use of the accepted step).",
@@ -211,8 +228,8 @@ claim("C17",
 claim("C18",
       "Wiring clauses + frozen coefficients: velocities of the analytical bodies are centred differences; the Moon and "
       "Sun direction vectors are the ecliptic->equator rotation of (lambda, phi) (12 symbolic obligations), distance "
-      "wiring, TDB / UT1 time arguments from normalised dates, and the multiset of series coefficients equals the "
-      "committed reference; JPL lookups use the TDB julian date, divide the rate by S_PER_DAY only on the 3-vector arm, "
+      "wiring, TDB / UT1 time arguments from normalised dates, and both the multiset of series coefficients and the "
+      "value-numbered normal form of the series equal the committed reference; JPL lookups use the TDB julian date, divide the rate by S_PER_DAY only on the 3-vector arm, "
       "scale km->m and take the sign from the (centre, target) pair convention; kernel and analytical frames are "
       "attached to the right parents.",
       "Not decided: agreement with DE to 0.02 deg / 0.7 deg (the coefficients are frozen from the pinned tree, whose "
@@ -224,7 +241,8 @@ claim("C19",
       "Lagrange coefficients as in Curtis 5.3; ltan2raan o raan2ltan = id modulo one turn with consistent moduli; the "
       "three arms of sso() solve one relation and that relation makes the J2 node rate read from j2.py equal the mean "
       "solar rate (term algebra with rational exponents); Walker plane spacing, in-plane spacing and inter-plane phasing "
-      "2 pi f / t for both patterns; beta and the B-plane vectors by construction.",
+      "2 pi f / t for both patterns; beta and the B-plane vectors by construction; the J2 clauses of C05 (j2.py is an "
+      "anchor: write set, rates, snapshot never written).",
       "Not decided: convergence of Lambert in general, metre-level arrival as numbers, F' = dF/dz (dropped: nested "
       "radicals are outside the normal form).",
       "canonical term algebra (inverse and sibling identities) + loop-polarity rule + ast pattern rules", "§3 C19")
@@ -235,10 +253,11 @@ claim("C07",
       "six components km->m and returns a cartesian state at the requested date; the native model is bound to WGS-72 "
       "whose constants equal the published set by value (k_e as formula or number), converts rev/day->rad/min, "
       "minutes and Earth radii consistently, solves Kepler's equation with a Newton step verified symbolically and the "
-      "right exit polarity, measures elapsed time on instants; the numeric literals of its initialisation and of its "
-      "secular/periodic terms equal the committed reference multiset.",
-      "Not decided: that every coefficient expression of the native model is the published one (only their literals are "
-      "frozen), deep-space behaviour, 1 cm / |v| x 50 us agreement as numbers.",
+      "right exit polarity, measures elapsed time on instants, keeps its initialisation record per instance (not on a "
+      "shared class); the numeric literals AND the value-numbered algebraic normal forms of every output of its "
+      "initialisation and of its secular/periodic terms equal the committed reference.",
+      "Not decided: that the native model's formulas are the published ones (they are frozen against the pinned tree, "
+      "whose agreement with the reference the suite samples), deep-space behaviour, 1 cm / |v| x 50 us as numbers.",
       "ast wiring rules + published-constant comparison + frozen-constant multisets + term algebra on the Kepler step", "§3 C07")
 
 NOT_YET = "check not built yet in this revision; rules designed in DESIGN.md §3 — claimed once its checker is committed"
